@@ -16,6 +16,7 @@ import PybtexModel.Model.Interp
 
 namespace Pybtex.BstSem
 open Pybtex.Interp
+open Pybtex.Bst (Command Program)
 
 /-! ### operand classes -/
 
@@ -152,6 +153,22 @@ structure Frame (s s' : St) : Prop where
   out : ∃ evs : List OutEv, (s'.lines, s'.buffer) = evs.foldl emit (s.lines, s.buffer)
   reports : s.reports <+: s'.reports
   printed : s.printed <+: s'.printed
+
+/-- Frame of a command: output only through write/newline events, reports and print-outs only
+appended; and, for every command but `READ`, the database is kept and the citation list is kept
+up to order. -/
+structure CmdFrame (c : Command) (s s' : St) : Prop where
+  out : ∃ evs : List OutEv, (s'.lines, s'.buffer) = evs.foldl emit (s.lines, s.buffer)
+  reports : s.reports <+: s'.reports
+  printed : s.printed <+: s'.printed
+  db : upper c.name ≠ "READ".toList → s'.db = s.db
+  citations : upper c.name ≠ "READ".toList → s'.citations.Perm s.citations
+
+
+/-- the invariant that makes `ITERATE` / `REVERSE` a plain fold: the database has been read and
+holds every entry of the citation list -/
+def Ready (s : St) : Prop := ∃ db, s.db = some db ∧ ∀ k ∈ s.citations, db.entries.contains k = true
+
 
 /-! ### declarations (`ENTRY`, `INTEGERS`, `STRINGS`, `FUNCTION`) -/
 
